@@ -361,9 +361,15 @@ impl<O: Clone + PartialEq, A: Clone> Hypergraph<O, A> {
         use std::mem::take;
         let q = self.coequalizer();
 
-        self.nodes = match coequalizer_universal(&q, &VecArray(take(&mut self.nodes))) {
+        // NOTE: on failure the node labels are put back, so that a failed quotient leaves the
+        // hypergraph unchanged.
+        let old_nodes = VecArray(take(&mut self.nodes));
+        self.nodes = match coequalizer_universal(&q, &old_nodes) {
             Some(nodes) => nodes.0,
-            None => return Err(q),
+            None => {
+                self.nodes = old_nodes.0;
+                return Err(q);
+            }
         };
 
         // map hyperedges
